@@ -266,7 +266,9 @@ CHECKS = {
              "interleavings of print thread, firmware and read thread, with an arbitrary good/corrupted flag on every transmission. "
              "Proved: C15_safety (accepted log always a contiguous in-order duplicate-free slice of the job's commands, a prefix when the "
              "reset got through), C15_numbering (line numbers = commands sent, stored lines and good frames carry (k, command k)), "
-             "C15_resend (a resend request restarts transmission at the requested stored line), C15_window (wire + replies + clear flag <= 1 + rejections), C15_complete_clean (clean link, any "
+             "C15_resend (a resend request restarts transmission at the requested stored line), C15_window (wire + replies + clear flag <= 1 + rejections), C15_complete_unless_late_resend (reset through, ANY "
+             "corruption pattern and interleaving: at quiescence the whole job is accepted unless a Resend was read after the print thread "
+             "stopped -- the only way to lose lines), C15_complete_clean (clean link, any "
              "latency: at quiescence the whole job is accepted), C15_xor_detects_single, C15_frame_roundtrip (the firmware reads back "
              "(k, command, checksum ok) from frame_bytes k command, for every k and command text). Completeness under corruption is REFUTED for "
              "the faithful model: C15_refuted_tail, C15_refuted_m110 = the two recorded findings. Tie: the real printcore streams "
@@ -274,7 +276,7 @@ CHECKS = {
              "accepted log; frame_bytes == wire bytes; oracle: frames well-formed, job accepted exactly once in order.",
         note=TB + "Partial: one _sendnext call / one _listen line are atomic steps (races on the unlocked clear/resendfrom not "
                   "modelled); pyserial, scheduling and timeouts not modelled; the firmware is the harness's fake (same rules as "
-                  "fw_react); completeness only for a clean link. Known findings (known_findings.json): lost first line when the "
+                  "fw_react); unconditional completeness is false (two refuted witnesses = the known findings). Known findings (known_findings.json): lost first line when the "
                   "M110 reset is corrupted on a firmware expecting N1; lost tail after a surplus ok. No axioms.",
         technique="Rocq proofs (inductive invariants of a transition system, all interleavings and corruption patterns) + trace-acceptance correspondence (vm_compute) against the real threads + oracle",
         ref="§C15"),
@@ -285,7 +287,8 @@ CHECKS = {
              "any unsolicited status lines, error replies anywhere: write() completes only after the terminator of its own statement was "
              "handled; whenever no write is in progress everything is sent and acknowledged = what disconnect(wait) waits for), "
              "C16_error_surfaces / C16_raises_only_on_error (an error/alarm/!! line makes the next completing write raise; no raise "
-             "without one). Synchrony without quiescence is REFUTED (C16_refuted_stale_ok = recorded finding). Tie: real PrintrunWriter + "
+             "without one). Synchrony without quiescence is REFUTED (C16_refuted_stale_ok = recorded finding) and quantified: C16_sync_stale (k acknowledgements "
+             "outstanding at the start: at most k statements early). Tie: real PrintrunWriter + "
              "printcore threads over a fake FIFO serial device; each loss-free trace must be a run of the model (check_trace in Coq); "
              "oracle with tagged acknowledgements for order / return-after-own-ack / errors / readings / connection loss.",
         note=TB + "Partial: atomic steps (threading.Event/Queue, scheduler, timeouts not modelled); synchrony needs a quiescent "
